@@ -151,20 +151,17 @@ Definition get (mods : list nat) (s : rstate) (a : barg) (tys : list ttype) : rs
   | BName n =>
     let '(_, s1, ob) := get_by_name mods false s n in
     (s1, match ob with Some b => OBackend b | None => OValueError end)
-  | _ =>
+  | BBad => (s, OValueError)        (* neither a backend, nor a name, nor None: refused whatever with-block is open *)
+  | BNone =>
     match stack s with
     | b :: _ => (s, OBackend b)
     | [] =>
-      match a with
-      | BBad => (s, OValueError)
-      | _ =>
         let '(s1, r) := get_by_tensors mods false s tys in
         (s1, match r with
              | None => OValueError
              | Some [b] => OBackend b
              | Some _ => OResolutionError
              end)
-      end
     end
   end.
 
@@ -216,13 +213,11 @@ Definition select (avail : list backend) (with_stack : list backend) (a : barg) 
   match a with
   | BObj b => OBackend b
   | BName n => match find (fun b => Nat.eqb (bname b) n) avail with Some b => OBackend b | None => OValueError end
-  | _ =>
+  | BBad => OValueError
+  | BNone =>
     match with_stack with
     | b :: _ => OBackend b
     | [] =>
-      match a with
-      | BBad => OValueError
-      | _ =>
         if forallb is_scalar tys then
           match find (fun b => Nat.eqb (bname b) numpy_name) avail with Some b => OBackend b | None => OValueError end
         else
@@ -231,6 +226,5 @@ Definition select (avail : list backend) (with_stack : list backend) (a : barg) 
           | [b] => OBackend b
           | _ => OResolutionError
           end
-      end
     end
   end.
